@@ -291,14 +291,17 @@ func main() {
 		r.LoadReplay(&c)
 		cases = []Case{c}
 	}
-	// in-memory Specs: decode strictly; the document they denote is what json.Marshal gives
+	// in-memory Specs: decode strictly; the document they denote is rendered by the hand-written reference
 	for i := range cases {
 		var gs specs.Spec
 		dec := json.NewDecoder(strings.NewReader(cases[i].JSON))
 		dec.DisallowUnknownFields()
 		if dec.Decode(&gs) == nil {
 			cases[i].typed = &gs
-			b, _ := json.Marshal(&gs)
+			// the denoted document is rendered by a hand-written reference (refmodel.SpecDoc), not
+			// through the struct tags of the code under test; it must agree with what the code's
+			// own marshalling produces today (self-check of the reference, exit 2 on disagreement)
+			b, _ := json.Marshal(refmodel.SpecDoc(&gs))
 			cases[i].typedJSON = string(b)
 		}
 	}
